@@ -117,6 +117,17 @@ Theorem C10_forward_conversion_no_wrap : forall p, p = prec8 \/ p = prec12 -> fo
 Proof. exact forward_conversion_no_wrap. Qed.
 Print Assumptions C10_forward_conversion_no_wrap.
 
+(* the range_limit[] subscripts of the inverse conversion (separate and merged) stay inside the part of the
+   table built by jdmaster.c that is a clamp, so `clamp` in the model is what the table lookup returns *)
+Theorem C10_decode_index_in_clamp_range : forall p mrg, p = prec8 \/ p = prec12 -> forall y cb cr,
+  0 <= y <= sp_max p -> 0 <= cb <= sp_max p -> 0 <= cr <= sp_max p ->
+  let ch := chroma p mrg cb cr in
+  - (sp_max p + 1) <= y + c0 ch < 2 * (sp_max p + 1) + sp_center p /\
+  - (sp_max p + 1) <= y + c1 ch < 2 * (sp_max p + 1) + sp_center p /\
+  - (sp_max p + 1) <= y + c2 ch < 2 * (sp_max p + 1) + sp_center p.
+Proof. exact decode_index_in_clamp_range. Qed.
+Print Assumptions C10_decode_index_in_clamp_range.
+
 (* non-vacuity: the hypotheses of (2) and (3) hold for concrete non-trivial values *)
 Example C10_compress_example :
   let L1 := cs_layout JCS_EXT_RGB in let L2 := cs_layout JCS_EXT_XBGR in
